@@ -35,8 +35,18 @@ class CallGraph:
                             self.props_by_name[st.name].append(fi)
                         else:
                             self.methods_by_name[st.name].append(fi)
+        self._value_calls = []
         for fi in self.funcs.values():
             self._scan(fi)
+        for fi, n in self._value_calls:
+            kind = self._callable_kind(fi, n.func)
+            if kind == "funcs":
+                continue  # plain functions / lambdas: referenced by name where they are put into the value
+            for m in self.methods_by_name["__call__"]:
+                if isinstance(kind, tuple) and self.class_of[m.key][2] is not kind[1]:
+                    continue
+                if _accepts(m, n):
+                    self._add(fi, m, n)
 
     # ------------------------------------------------------------------
     def _add(self, caller, callee_fi, node):
@@ -91,7 +101,8 @@ class CallGraph:
                     par = getattr(n, "_parent", None)
                     if isinstance(par, ast.Call) and par.func is n:
                         for m in self.methods_by_name.get(n.attr, ()):
-                            self._add(fi, m, n)
+                            if _accepts(m, par):
+                                self._add(fi, m, n)
                     else:
                         # bound method taken as a value
                         for m in self.methods_by_name.get(n.attr, ()):
@@ -117,12 +128,105 @@ class CallGraph:
                     if isinstance(op, (ast.In, ast.NotIn)):
                         for m in list(self.methods_by_name.get("__contains__", ())) + list(self.methods_by_name.get("__iter__", ())):
                             self._add(fi, m, n)
+            elif isinstance(n, ast.Call) and isinstance(n.func, ast.Name) and n.func.id != "len" and self.methods_by_name.get("__call__") \
+                    and repo.resolve_name(fi, n.func.id).kind in ("param", "local"):
+                # calling a parameter / local value: it may be an instance of a class of the package that defines __call__
+                # (decided after all direct edges are known: the classes a parameter can hold come from the call sites)
+                self._value_calls.append((fi, n))
             elif isinstance(n, ast.Call) and isinstance(n.func, ast.Name) and n.func.id == "len":
                 for m in self.methods_by_name.get("__len__", ()):
                     self._add(fi, m, n)
             elif isinstance(n, (ast.With, ast.AsyncWith)):
                 for m in list(self.methods_by_name.get("__enter__", ())) + list(self.methods_by_name.get("__exit__", ())):
                     self._add(fi, m, n)
+
+    FUNCTION_MAKERS = ("curry", "partial", "compose", "compose_left", "juxt", "complement", "flip", "itemgetter", "attrgetter", "methodcaller")
+
+    def _callable_kind(self, fi, expr, _depth=0):
+        """what a called value is: 'funcs' (plain functions / lambdas / partial applications only), (module, class) of the
+        package when it provably is an instance of that class, None when unknown"""
+        repo = self.repo
+        if _depth > 3:
+            return None
+        if isinstance(expr, ast.Lambda):
+            return "funcs"
+        if isinstance(expr, ast.IfExp):
+            a, b = self._callable_kind(fi, expr.body, _depth + 1), self._callable_kind(fi, expr.orelse, _depth + 1)
+            return a if a == b else None
+        ic = repo.instance_class(fi, expr)
+        if ic is not None:
+            return ic
+        if isinstance(expr, (ast.Name, ast.Attribute)):
+            r = repo.resolve_expr(fi, expr)
+            if r.kind == "func":
+                return "funcs"
+            if r.kind == "external":
+                return "funcs"
+            if r.kind == "local":
+                kinds = []
+                for kind, val in r.entries:
+                    if kind != "assign" or not isinstance(val, ast.AST):
+                        return None
+                    kinds.append(self._callable_kind(r.func, val, _depth + 1))
+                return kinds[0] if kinds and all(k == kinds[0] for k in kinds) else None
+            if r.kind == "param":
+                return self._param_kind(r.func, r.name, _depth + 1)
+            return None
+        if isinstance(expr, ast.Call):
+            f = expr.func
+            if isinstance(f, (ast.Name, ast.Attribute)):
+                r = repo.resolve_expr(fi, f)
+                if r.kind == "external" and r.fq.split(".")[-1] in self.FUNCTION_MAKERS:
+                    return "funcs" if all(self._callable_kind(fi, a, _depth + 1) == "funcs" for a in expr.args[:1]) else None
+            if isinstance(f, ast.Attribute) and f.attr in ("get", "pop") and expr.args:
+                tab = self._table_kind(fi, f.value, _depth + 1)
+                dflt = self._callable_kind(fi, expr.args[1], _depth + 1) if len(expr.args) > 1 else tab
+                return tab if tab == dflt or (len(expr.args) > 1 and isinstance(expr.args[1], ast.Constant) and expr.args[1].value is None) else None
+            return None
+        if isinstance(expr, ast.Subscript):
+            return self._table_kind(fi, expr.value, _depth + 1)
+        return None
+
+    def _table_kind(self, fi, expr, _depth):
+        """the common kind of the values of a dict written out as a display (directly, through a local or a module-level name)"""
+        repo = self.repo
+        d = expr
+        scope = fi
+        for _ in range(3):
+            if isinstance(d, ast.Dict):
+                break
+            if isinstance(d, ast.Name):
+                r = repo.resolve_name(scope, d.id)
+                if r.kind == "local" and len(r.entries) == 1 and r.entries[0][0] == "assign" and isinstance(r.entries[0][1], ast.AST):
+                    d, scope = r.entries[0][1], r.func
+                    continue
+                if r.kind == "value" and len(r.exprs) == 1:
+                    d, scope = r.exprs[0], r.mod
+                    continue
+            return None
+        if not isinstance(d, ast.Dict) or not d.values or any(k is None for k in d.keys):
+            return None
+        kinds = [self._callable_kind(scope, v, _depth + 1) for v in d.values]
+        return kinds[0] if all(k == kinds[0] for k in kinds) else None
+
+    def _param_kind(self, fn, pname, _depth):
+        """the kind of a parameter from the call sites of its function - only when every reference to the function is a direct call"""
+        from .interproc import bind_args, Callee
+        callers = [(k, nodes) for (k, callee), nodes in self.sites.items() if callee == fn.key]
+        if not callers:
+            return None
+        kinds = []
+        for k, nodes in callers:
+            cfi = self.funcs[k]
+            for n in nodes:
+                par = getattr(n, "_parent", None)
+                if not (isinstance(par, ast.Call) and par.func is n):
+                    return None  # handed on as a value: called from somewhere unknown
+                bound, unknown = bind_args(Callee(func=fn), par)
+                if unknown or pname not in bound:
+                    return None
+                kinds.append(self._callable_kind(cfi, bound[pname], _depth + 1))
+        return kinds[0] if kinds and all(k == kinds[0] for k in kinds) else None
 
     def _value_funcs(self, ref, _seen=None):
         """functions referenced by a module-level value (tables of callables)"""
@@ -197,6 +301,30 @@ class CallGraph:
 
     def callers(self, key):
         return [k for k, v in self.edges.items() if key in v]
+
+
+def _accepts(method, call):
+    """can this call bind to the method's signature (receiver = self)?  A by-name candidate that cannot is not a callee:
+    the call would raise TypeError before running any of it"""
+    a = method.node.args
+    if any(isinstance(x, ast.Starred) for x in call.args) or any(k.arg is None for k in call.keywords):
+        return True
+    deco = [norm(d) for d in method.node.decorator_list]
+    pos = [x.arg for x in a.posonlyargs + a.args]
+    if "staticmethod" not in deco:
+        pos = pos[1:]
+    npos = len(call.args)
+    if npos > len(pos) and a.vararg is None:
+        return False
+    bound = set(pos[:npos])
+    names = set(pos) | {x.arg for x in a.kwonlyargs}
+    for k in call.keywords:
+        if k.arg in bound or (k.arg not in names and a.kwarg is None):
+            return False
+        bound.add(k.arg)
+    n_def = len(a.defaults)
+    required = set(pos[:len(pos) - n_def] if n_def else pos) | {x.arg for x, d in zip(a.kwonlyargs, a.kw_defaults) if d is None}
+    return required <= bound
 
 
 def _plain_container_local(ref):
